@@ -261,6 +261,44 @@ func genProduce(prop string, seed uint64) *Plan {
 		recSize = func() int64 { return g.pick(10, 40, 100, 200, 300, 420) }
 		nops = int(g.rng(15, 60))
 		faultsN = int(g.rng(0, 3))
+	case "C29":
+		// the run crosses the sequence wrap within its first batches
+		k["nparts"] = g.rng(2, 4)
+		nparts = k["nparts"] - 1 // the last partition only carries the warm-up record
+		k["wrap_k"] = g.pick(1, 2, 5, 12, 40)
+		k["linger_ms"] = g.pick(0, 5, 50)
+		k["batch_max_bytes"] = g.pick(512, 1000012)
+		if g.pct(50) {
+			k["retries"] = g.rng(1, 6)
+		}
+		if g.pct(40) {
+			k["delivery_timeout_ms"] = g.rng(2000, 12000)
+		}
+		weights["try"], weights["sync"], weights["sleep"] = 2, 2, 8
+		nops = int(g.rng(10, 60))
+		nactors = int(g.rng(1, 3))
+		faultsN = 0
+		movesN = int(g.rng(0, 4))
+		nf := int(g.rng(0, 6))
+		for i := 0; i < nf; i++ {
+			f := Fault{Broker: -1, Key: 0, Nth: int(g.rng(2, 9))}
+			switch x := g.R.Intn(100); {
+			case x < 40:
+				f.Kind = "kill_resp"
+			case x < 55:
+				f.Kind = "kill_req"
+			case x < 80:
+				f.Kind = "err_noproc"
+				f.Code = int16(g.pick(ErrNotLeader, ErrNotEnoughReplicas, ErrRequestTimedOut))
+			case x < 90:
+				f.Kind = "err_after"
+				f.Code = int16(g.pick(ErrRequestTimedOut, ErrNotEnoughReplicasAfterAppend))
+			default:
+				f.Kind = g.pickS("delay_resp", "stall_resp")
+				f.DurMs = g.rng(100, 4000)
+			}
+			g.fault(f)
+		}
 	case "C13", "C41":
 		weights["abort"], weights["purge"], weights["cancel"] = 2, 1, 3
 		ctxCancelPct = 20
@@ -341,7 +379,7 @@ func genProduce(prop string, seed uint64) *Plan {
 }
 
 func init() {
-	for _, p := range []string{"C01", "C02", "C03", "C18"} {
+	for _, p := range []string{"C01", "C02", "C03", "C18", "C29"} {
 		p := p
 		Generators[p] = func(seed uint64) *Plan { return genProduce(p, seed) }
 	}
